@@ -95,6 +95,15 @@ Theorem C11_lost_update_refuted : exists ops a x y, let h := run ops in
   fst (racy_append_pair h a x y) = icontent h a ++ [y].
 Proof. exact lost_update_refuted_lemma. Qed.
 
+(* constants that are closures returned by built-ins folded at Generate time (createLowPass, createInterpolation,
+   linearReg) are frozen as the code is: they capture immutable data.  The shape that would break C11 - a captured
+   mutable cell, e.g. an interval hint validated before use - is a function of its argument alone when run
+   isolated, and gives another evaluation's interval under the schedule A.check; B.check; A.use.  (Witness for
+   the MUTATED design; the correspondence run evaluates these built-ins from 8-12 goroutines under -race.) *)
+Theorem C11_constant_with_state_discriminates : exists xs ys xa xb last,
+  lookup_isolated xs ys xa last = 400%Z /\ lookup_interleaved xs ys xa xb last = 0%Z.
+Proof. exact constant_with_state_lemma. Qed.
+
 (* non-vacuity: a frozen heap with a generated function exists (the constant is forced at Generate time by
    `let n0=c1.size();`; with a capacity policy that allocates exactly, both lists have cap = len), three evaluations interleaved step by step *)
 Example C11_nonvacuous :
@@ -118,3 +127,4 @@ Print Assumptions C11_frozen_value_refuted.
 Print Assumptions C11_two_evals_conflict_refuted.
 Print Assumptions C11_two_lazy_evals_conflict_refuted.
 Print Assumptions C11_lost_update_refuted.
+Print Assumptions C11_constant_with_state_discriminates.
